@@ -474,9 +474,80 @@ def cer_vs_table_change(decisions, other="loss"):
         w.close()
 
 
+def install_points_waiter():
+    from dv import sched, simkernel as sk
+    mods = sk.load_node()
+    N = mods["node"].Node
+    sched.clear()
+    return sched.install({N.receive_cer: r"_assign_peer_connection|_flag_connection_as_ready|is now ready|answer\.result_code|send_message",
+                          N._flag_connection_as_ready: None})
+
+
+def waiting_sender_vs_cea(decisions):
+    """An application thread waits for its application to become ready and sends a request at once.  The CER of the
+    only peer arrives.  One schedule: whatever the interleaving, the peer sees the CEA before anything else."""
+    from dv import sched
+    from diameter.message.commands import CreditControlRequest
+    w = W.NodeWorld({"peers": [{"name": "peer1.example", "ip": ["10.1.1.1"]}],
+                     "apps": [{"app_id": 4, "auth": True, "peers": [0], "handler": "answer"}],
+                     "node_timers": {"idle": 5000, "dwa": 50, "cer": 50, "cea": 50, "wakeup": 5}})
+    try:
+        w.start()
+        a = w.accept("10.1.1.1")
+        a.host = "peer1.example"
+        app = w.apps[0]
+        m = CreditControlRequest()
+        m.session_id, m.origin_host, m.origin_realm = "n;1", W.NODE_HOST.encode(), W.NODE_REALM.encode()
+        m.destination_realm, m.service_context_id = W.NODE_REALM.encode(), "x"
+        m.cc_request_type, m.cc_request_number = 1, 0
+
+        def waiter():
+            app.wait_for_ready(timeout=10)
+            return app.send_request(m, timeout=1)
+        box = w.k.spawn(waiter, name="waiter")
+        w.k.run()
+        ex = sched.Explorer(decisions)
+        sched.attach(w.k, ex)
+        w.feed_msg(a, {"k": "CER", "host": "peer1.example", "auth": [4], "hbh": 0x101, "e2e": 0x101}, run=False)
+        ex.armed = True
+        w.k.run()
+        ex.armed = False
+        w.advance(2)
+        problems = []
+        out = a.refresh()
+        if not out or out[0].code != W.CMD_CE or out[0].is_request or out[0].result_code() != 2001:
+            problems.append(("request-before-cea", f"written to the peer, in order: {[f.brief() for f in out]}"))
+        if not [f for f in out if f.is_request and f.code == 272]:
+            problems.append(("waiter-did-not-send", f"outcome of the waiting sender: {box['exc']!r}"))
+        for sig, d in W.monitor_threads(w):
+            problems.append((f"thread-died/{sig}", d))
+        return ex.trace, problems
+    finally:
+        w.close()
+
+
 def schedule_part(rec, shard, nshards, thorough):
     from dv import sched
     from dv.common import fp
+    info = install_points_waiter()
+    if shard == 0:
+        rec.extra["preemption_functions_waiter"] = info
+    holder3 = {}
+
+    def run_three(dec):
+        tr, problems = waiting_sender_vs_cea(dec)
+        holder3["last"] = problems
+        return tr
+    n3 = 0
+    for dec, trace in sched.enumerate_schedules(run_three, 3 if thorough else 2, shard, nshards):
+        case = {"waiting_sender_vs_cea": True, "schedule": {str(i): c for i, c in sorted(dec.items())}}
+        for kind, detail in holder3["last"]:
+            rec.violation(f"C06/ready-before-cea/{kind}", case, detail)
+        n3 += 1
+        rec.case(fp("sched-waiter", tuple(sorted(dec.items()))) if dec else None,
+                 ["schedule-exploration", "waiting-sender-vs-cea", f"deviations:{len(dec)}"], sample=lambda: dict(case, choice_points=len(trace)))
+    rec.extra["waiting_sender_schedules"] = rec.extra.get("waiting_sender_schedules", 0) + n3
+    sched.clear()
     info = install_points()
     if shard == 0:
         rec.extra["preemption_functions"] = info
@@ -608,6 +679,16 @@ def replay_schedule(doc):
 
 
 def replay(doc):
+    if doc["case"].get("waiting_sender_vs_cea"):
+        install_points_waiter()
+        _, problems = waiting_sender_vs_cea({int(i): c for i, c in doc["case"]["schedule"].items()})
+        sigs = [f"C06/ready-before-cea/{k}" for k, _ in problems]
+        if doc["signature"] in sigs:
+            print(f"  replayed: {problems[0][1][:300]}")
+            print(f"VIOLATION property={PID} replay=(replay)")
+            return 1
+        print(f"[{PID}] replay: signature {doc['signature']} does not reproduce (got {sigs})")
+        return 0
     if doc["case"].get("cea_rejected_vs_io_loop"):
         return replay_schedule(doc)
     if doc["case"].get("cer_vs_table_change"):
